@@ -160,6 +160,41 @@ def _responses(shard, ctx, res, only):
                         continue
                     res.outcome("affine/ok")
                     res.nontrivial += 1
+    # the kernel itself with banks in decreasing and mixed width order (MatchedFilter only builds increasing ones)
+    from numba import typed
+
+    from sigpyproc.core.filters import Template
+
+    for n in range(shard["lo"], shard["hi"] + 1):
+        z = _data(n, ctx.seed, 1)
+        z = ((z - z.mean()) / z.std()).astype(np.float32)
+        for kind in KINDS:
+            for oname, widths in (("decreasing", [6, 3, 1]), ("mixed", [2, 7, 1, 4])):
+                if only is not None and [n, kind, "kernel", oname] != only:
+                    continue
+                res.evaluations += 1
+                case = {"shard": shard, "inner": [n, kind, "kernel", oname]}
+                try:
+                    bank = [getattr(Template, f"gen_{kind}")(w) for w in widths]
+                    if max(t.data.size for t in bank) > n:
+                        res.skip("bank_does_not_fit")
+                        continue
+                    convs = np.asarray(kernels.convolve_templates(z, typed.List([np.asarray(t.data, dtype=np.float32) for t in bank]), typed.List([t.ref_bin for t in bank])), dtype=np.float64)
+                except Exception as e:  # noqa: BLE001
+                    res.violation({"site": "kernels.convolve_templates", "symptom": f"raised {type(e).__name__}"}, case, repr(e))
+                    continue
+                zz = z.astype(np.float64)
+                lim = 32 * EPS32 * np.log2(n) * float(np.linalg.norm(zz))
+                idx = (np.arange(n)[None, :] - np.arange(n)[:, None]) % n
+                ref = np.stack([(_model(t, n, 0)[idx] * zz[None, :]).sum(1) for t in bank])
+                dev = float(np.max(np.abs(convs - ref)))
+                if convs.shape != ref.shape or dev > lim:
+                    k, t = np.unravel_index(int(np.argmax(np.abs(convs - ref))), ref.shape)
+                    res.violation({"site": "kernels.convolve_templates", "symptom": "response differs from the normalised template correlation", "bank_order": oname}, case,
+                                  f"n={n} kind={kind} widths {widths}: template {k} bin {t}: got {convs[k, t]:.6f} want {ref[k, t]:.6f}")
+                    continue
+                res.outcome("responses/ok")
+                res.nontrivial += 1
     res.sample({"shard": shard, "inner": [shard["lo"], "gaussian", 8, 1.5]}, cap=1)
 
 
